@@ -666,4 +666,483 @@ theorem seekForPrev_key_mem {s : Store} {k : Bytes} {r : Bytes × List Bytes}
     (h : s.seekForPrev k = some r) : ∃ e ∈ s, e.1 = r.1 :=
   ⟨r, (seekForPrev_some h).1, rfl⟩
 
+theorem get_eq_nil_of_not_mem {s : Store} {k : Bytes} (h : ∀ e ∈ s, e.1 ≠ k) : s.get k = [] := by
+  unfold Store.get
+  have : s.find? (·.1 = k) = none := by
+    rw [List.find?_eq_none]; intro e he; simpa using h e he
+  rw [this]
+
+/-- keys with a common prefix form an interval of the byte order -/
+theorem prefix_convex : ∀ (P x z y : Bytes), bytesLe (P ++ x) y = true → bytesLe y (P ++ z) = true →
+    ∃ w, y = P ++ w
+  | [], _, _, y, _, _ => ⟨y, rfl⟩
+  | a :: P, x, z, [], h1, _ => by
+    rw [bytesLe_iff] at h1; simp [bytesLt] at h1
+  | a :: P, x, z, b :: y, h1, h2 => by
+    rw [bytesLe_iff] at h1 h2
+    simp only [List.cons_append, bytesLt] at h1 h2
+    by_cases hba : b.toNat < a.toNat
+    · rw [if_pos hba] at h1; cases h1
+    · by_cases hab : a.toNat < b.toNat
+      · rw [if_pos hab] at h2; cases h2
+      · rw [if_neg hba, if_neg hab] at h1
+        rw [if_neg hab, if_neg hba] at h2
+        have : a = b := UInt8.toNat_inj.1 (by omega)
+        subst this
+        obtain ⟨w, hw⟩ := prefix_convex P x z y (bytesLe_iff.2 h1) (bytesLe_iff.2 h2)
+        exact ⟨w, by rw [hw]; rfl⟩
+
+theorem take_prefix_of_length {P w : Bytes} {j : Nat} (h : P.length = j) : (P ++ w).take j = P := by
+  rw [← h]; simp
+
+/-! ### name → map: the two layouts -/
+
+/-- the last byte of a map key: `*` for a wildcard map, `=` for an exact one -/
+def sfx (w : Bool) : UInt8 := if w then 0x2a else 0x3d
+
+/-- map declarations: owner (labels, in query order) → wildcard? → map id -/
+abbrev Maps := List Bytes → Bool → Option Bytes
+
+/-- the v1 store holds exactly the declared maps under `mtype` (other keys are arbitrary) -/
+def RepMapsV1 (s : Store) (mtype : Bytes) (maps : Maps) : Prop :=
+  ∀ z w, NameOK z → Loc.first s (mtype ++ pack z ++ [sfx w]) = maps z w
+
+/-- the v2 store: every key that starts with `mtype` is a map key of a well-formed owner holding a
+single value, and the declared maps are exactly these; keys that do not start with `mtype`
+(resource records, the other map type, range points, features) are arbitrary -/
+structure RepMapsV2 (s : Store) (mtype : Bytes) (maps : Maps) : Prop where
+  keys : ∀ e ∈ s, e.1.take 2 = mtype →
+    ∃ z w v, NameOK z ∧ e.1 = K mtype (List.reverse z) [sfx w] ∧ e.2 = [v]
+  get : ∀ z w, NameOK z → s.get (K mtype (List.reverse z) [sfx w]) = (maps z w).toList
+
+/-- wildcard maps from `z` upwards -/
+def wildUp (maps : Maps) : List Bytes → Option Bytes
+  | [] => maps [] true
+  | x :: z => match maps (x :: z) true with
+    | some v => some v
+    | none => wildUp maps z
+
+/-- the label-by-label search, on declarations -/
+def mapSpec (maps : Maps) (ql : List Bytes) : Option Bytes :=
+  match maps ql false with
+  | some v => some v
+  | none => match ql with
+    | [] => none
+    | _ :: z => wildUp maps z
+
+theorem drop_tok_pack (x : Bytes) (hx : LabelOK x) (R : Bytes) :
+    (x ++ R).drop (UInt8.ofNat x.length).toNat = R := by
+  rw [hx.toNat]; simp
+
+theorem take_tok_pack (x : Bytes) (hx : LabelOK x) (R : Bytes) :
+    (x ++ R).take (UInt8.ofNat x.length).toNat = x := by
+  rw [hx.toNat]; simp
+
+theorem mapKeys_wild {s : Store} {mtype : Bytes} {maps : Maps} (hrep : RepMapsV1 s mtype maps) :
+    ∀ (z : List Bytes) (fuel : Nat), NameOK z → z.length < fuel →
+      (Loc.mapKeys mtype fuel (pack z) false).findSome? (Loc.first s) = wildUp maps z
+  | [], fuel, hz, hf => by
+    obtain ⟨f, rfl⟩ : ∃ f, fuel = f + 1 := ⟨fuel - 1, by simp at hf; omega⟩
+    have := hrep [] true hz
+    simp only [sfx, if_true] at this
+    simp only [Loc.mapKeys, pack_nil, wildUp, List.findSome?_cons, if_true, List.findSome?_nil,
+      Bool.false_eq_true, if_false]
+    rw [pack_nil] at this
+    rw [this]
+    cases maps [] true <;> rfl
+  | x :: z, fuel, hz, hf => by
+    obtain ⟨f, rfl⟩ : ∃ f, fuel = f + 1 := ⟨fuel - 1, by simp at hf; omega⟩
+    have hx := hz.head
+    have h1 := hrep (x :: z) true hz
+    simp only [sfx, if_true] at h1
+    have ih := mapKeys_wild hrep z f hz.tail (by simp at hf; omega)
+    have e : pack (x :: z) = UInt8.ofNat x.length :: (x ++ pack z) := by rw [pack_cons]; rfl
+    rw [e]
+    simp only [Loc.mapKeys]
+    rw [if_neg (ofNat_len_ne_zero hx), drop_tok_pack x hx, List.findSome?_cons, ← e]
+    simp only [Bool.false_eq_true, if_false]
+    rw [h1, ih]
+    simp only [wildUp]
+    cases maps (x :: z) true <;> rfl
+
+theorem findMapV1_eq_spec {s : Store} {mtype : Bytes} {maps : Maps} (hrep : RepMapsV1 s mtype maps)
+    (ql : List Bytes) (hq : NameOK ql) : Loc.findMapV1 s (pack ql) mtype = mapSpec maps ql := by
+  unfold Loc.findMapV1
+  have h0 := hrep ql false hq
+  simp only [sfx, Bool.false_eq_true, if_false] at h0
+  cases ql with
+  | nil =>
+    simp only [pack_nil, List.length_cons, List.length_nil, Loc.mapKeys, if_true]
+    simp only [pack_nil] at h0
+    simp only [List.findSome?_cons, List.findSome?_nil, mapSpec]
+    rw [h0]
+    cases maps [] false <;> rfl
+  | cons x z =>
+    have hx := hq.head
+    have e : pack (x :: z) = UInt8.ofNat x.length :: (x ++ pack z) := by rw [pack_cons]; rfl
+    have hlen : (pack (x :: z)).length + 1 = ((pack (x :: z)).length) + 1 := rfl
+    rw [e]
+    simp only [Loc.mapKeys]
+    rw [if_neg (ofNat_len_ne_zero hx), drop_tok_pack x hx, List.findSome?_cons, ← e]
+    simp only [if_true]
+    rw [h0, mapKeys_wild hrep z _ hq.tail (by
+      have := length_le_flat_length z
+      rw [e, List.length_cons, List.length_append, pack_length]; omega)]
+    simp only [mapSpec]
+    cases maps (x :: z) false <;> rfl
+
+theorem sfx_cases (w : Bool) : sfx w = 0x2a ∨ sfx w = 0x3d := by cases w <;> simp [sfx]
+
+theorem unpack_pack : ∀ (ql : List Bytes) (fuel : Nat), NameOK ql → ql.length < fuel →
+    labels fuel (pack ql) = some ql
+  | [], fuel, _, hf => by
+    obtain ⟨f, rfl⟩ : ∃ f, fuel = f + 1 := ⟨fuel - 1, by simp at hf; omega⟩
+    simp [labels, pack_nil]
+  | x :: z, fuel, hq, hf => by
+    obtain ⟨f, rfl⟩ : ∃ f, fuel = f + 1 := ⟨fuel - 1, by simp at hf; omega⟩
+    have hx := hq.head
+    have e : pack (x :: z) = UInt8.ofNat x.length :: (x ++ pack z) := by rw [pack_cons]; rfl
+    rw [e]
+    simp only [labels]
+    rw [if_neg (ofNat_len_ne_zero hx), drop_tok_pack x hx, take_tok_pack x hx,
+      unpack_pack z f hq.tail (by simp at hf; omega)]
+    rw [if_neg (by rw [hx.toNat]; simp)]
+
+theorem reverseWire_pack (ql : List Bytes) (hq : NameOK ql) :
+    reverseWire (pack ql) = some (pack ql.reverse) := by
+  unfold reverseWire unpack
+  rw [unpack_pack ql _ hq (by have := length_le_flat_length ql; rw [pack_length]; omega)]
+  rfl
+
+section MapsV2
+variable {s : Store} {mtype : Bytes} {maps : Maps}
+
+theorem RepMapsV2.get_rev (hrep : RepMapsV2 s mtype maps) {a : List Bytes} (ha : NameOK a) (w : Bool) :
+    s.get (K mtype a [sfx w]) = (maps a.reverse w).toList := by
+  have := hrep.get a.reverse w ha.reverse
+  rwa [List.reverse_reverse] at this
+
+theorem RepMapsV2.absent (hrep : RepMapsV2 s mtype maps) {a : List Bytes} (ha : NameOK a) (w : Bool)
+    (h : ∀ e ∈ s, e.1 ≠ K mtype a [sfx w]) : maps a.reverse w = none := by
+  have h1 := hrep.get_rev ha w
+  rw [get_eq_nil_of_not_mem h] at h1
+  cases hm : maps a.reverse w with
+  | none => rfl
+  | some v => rw [hm] at h1; simp at h1
+
+theorem RepMapsV2.present (hrep : RepMapsV2 s mtype maps) {a : List Bytes} (ha : NameOK a) (w : Bool)
+    (h : maps a.reverse w ≠ none) : ∃ e ∈ s, e.1 = K mtype a [sfx w] := by
+  apply get_ne_nil_mem
+  rw [hrep.get_rev ha w]
+  cases hm : maps a.reverse w with
+  | none => exact absurd hm h
+  | some v => simp
+
+/-- what a seek at a key under `mtype` can return -/
+theorem map_seek_cases (hrep : RepMapsV2 s mtype maps) (hmt : mtype.length = 2) (k : Bytes)
+    (hk' : ∃ x, k = mtype ++ x) :
+    -- nothing at or below: every declared map key `≤ k` is absent
+    ((s.seekForPrev k = none ∨
+        ∃ fk vals, s.seekForPrev k = some (fk, vals) ∧ fk ≠ k ∧ fk.take 2 ≠ mtype) ∧
+      ∀ a w, NameOK a → bytesLe (K mtype a [sfx w]) k = true → maps a.reverse w = none) ∨
+    -- the key itself
+    (∃ vals, s.seekForPrev k = some (k, vals) ∧ (k, vals) ∈ s) ∨
+    -- another map key, which is then above every present map key `≤ k`
+    (∃ m w' vals, NameOK m ∧ s.seekForPrev k = some (K mtype m [sfx w'], vals) ∧
+      K mtype m [sfx w'] ≠ k ∧ bytesLe (K mtype m [sfx w']) k = true ∧
+      ∀ a w, NameOK a → bytesLe (K mtype a [sfx w]) k = true → maps a.reverse w ≠ none →
+        bytesLe (K mtype a [sfx w]) (K mtype m [sfx w']) = true) := by
+  cases hs : s.seekForPrev k with
+  | none =>
+    left
+    refine ⟨Or.inl rfl, fun a w ha hle => hrep.absent ha w fun e he heq => ?_⟩
+    have := seekForPrev_none.1 hs e he
+    rw [heq, hle] at this; cases this
+  | some r =>
+    obtain ⟨hmem, hle, hget, hmax⟩ := seekForPrev_some hs
+    by_cases hk : r.1 = k
+    · right; left
+      refine ⟨r.2, ?_, by rw [← hk]; exact hmem⟩
+      rw [← hk]
+    · by_cases hpre : r.1.take 2 = mtype
+      · right; right
+        obtain ⟨z, w', v, hz, hkey, _⟩ := hrep.keys r hmem hpre
+        refine ⟨z.reverse, w', r.2, hz.reverse, ?_, by rw [← hkey]; exact hk, by rw [← hkey]; exact hle,
+          fun a w ha hale hne => ?_⟩
+        · rw [← hkey]
+        · obtain ⟨e, he, heq⟩ := hrep.present ha w hne
+          have := hmax e he (by rw [heq]; exact hale)
+          rw [heq, hkey] at this; exact this
+      · left
+        refine ⟨Or.inr ⟨r.1, r.2, rfl, hk, hpre⟩, fun a w ha hale => ?_⟩
+        cases hm : maps a.reverse w with
+        | none => rfl
+        | some v =>
+          exfalso
+          obtain ⟨e, he, heq⟩ := hrep.present ha w (by rw [hm]; simp)
+          have h1 := hmax e he (by rw [heq]; exact hale)
+          rw [heq] at h1
+          have e1 : K mtype a [sfx w] = mtype ++ (pack a ++ [sfx w]) := by simp [K]
+          rw [e1] at h1
+          obtain ⟨x, rfl⟩ := hk'
+          obtain ⟨w2, hw2⟩ := prefix_convex mtype _ _ _ h1 hle
+          apply hpre
+          rw [hw2]; exact take_prefix_of_length hmt
+
+end MapsV2
+
+theorem flat_length_le_of_prefix {a n : List Bytes} (h : a <+: n) : (flat a).length ≤ (flat n).length := by
+  obtain ⟨t, rfl⟩ := h; rw [flat_append, List.length_append]; omega
+
+theorem K_le_of_prefix (pre : Bytes) {a p : List Bytes} (hp : NameOK p) (h : a <+: p) {s1 s2 : Bytes}
+    (hs : a = p → bytesLe s1 s2 = true) : bytesLe (K pre a s1) (K pre p s2) = true := by
+  by_cases hap : a = p
+  · subst hap; rw [key_le_same_name]; exact hs rfl
+  · obtain ⟨x, t, rfl⟩ := proper_prefix_of h hap
+    exact bytesLe_of_lt (key_lt_of_proper_prefix pre a x t hp.of_append_right.head _ _)
+
+theorem K_lt_of_proper_prefix (pre : Bytes) {a p : List Bytes} (hp : NameOK p) (h : a <+: p) (hne : a ≠ p)
+    (s1 s2 : Bytes) : bytesLt (K pre a s1) (K pre p s2) = true := by
+  obtain ⟨x, t, rfl⟩ := proper_prefix_of h hne
+  exact key_lt_of_proper_prefix pre a x t hp.of_append_right.head _ _
+
+theorem prefix_antisymm' {a b : List Bytes} (h1 : a <+: b) (h2 : b <+: a) : a = b :=
+  h1.eq_of_length (Nat.le_antisymm h1.length_le h2.length_le)
+
+theorem prefix_dropLast_of_proper {a n : List Bytes} (h : a <+: n) (hne : a ≠ n) : a <+: n.dropLast := by
+  have hl : a.length < n.length := by
+    rcases Nat.lt_or_ge a.length n.length with h' | h'
+    · exact h'
+    · exact absurd (h.eq_of_length (Nat.le_antisymm h.length_le h')) hne
+  exact List.prefix_of_prefix_length_le h (List.dropLast_prefix n) (by simp; omega)
+
+theorem wildUp_hit {maps : Maps} {z : List Bytes} {v : Bytes} (h : maps z true = some v) :
+    wildUp maps z = some v := by
+  cases z with
+  | nil => exact h
+  | cons x z => simp only [wildUp]; rw [h]
+
+theorem wildUp_skip {maps : Maps} : ∀ (t z : List Bytes),
+    (∀ t1 t2, t = t1 ++ t2 → t2 ≠ [] → maps (t2 ++ z) true = none) → wildUp maps (t ++ z) = wildUp maps z
+  | [], z, _ => rfl
+  | x :: t, z, h => by
+    have h1 := h [] (x :: t) rfl (by simp)
+    simp only [List.cons_append] at h1 ⊢
+    simp only [wildUp]; rw [h1]
+    exact wildUp_skip t z fun t1 t2 ht hne => h (x :: t1) t2 (by rw [ht]; rfl) hne
+
+/-- no wildcard map between `p'` and `q`: the upward search from `q` continues from `p'` -/
+theorem wild_skip {maps : Maps} {q p' : List Bytes} (hp : p' <+: q)
+    (h : ∀ a, a <+: q → maps a.reverse true ≠ none → a <+: p') :
+    wildUp maps q.reverse = wildUp maps p'.reverse := by
+  obtain ⟨u, rfl⟩ := hp
+  rw [List.reverse_append]
+  apply wildUp_skip
+  intro t1 t2 ht hne
+  cases hm : maps (t2 ++ p'.reverse) true with
+  | none => rfl
+  | some v =>
+    exfalso
+    have hu : u = t2.reverse ++ t1.reverse := by
+      have := congrArg List.reverse ht; simpa using this
+    have ha : (p' ++ t2.reverse) <+: (p' ++ u) := by
+      rw [hu, ← List.append_assoc]; exact List.prefix_append _ _
+    have := h (p' ++ t2.reverse) ha (by simp [hm])
+    have hl := this.length_le
+    simp at hl
+    exact hne (List.eq_nil_of_length_eq_zero (by omega))
+
+theorem wildUp_none {maps : Maps} : ∀ (z : List Bytes),
+    (∀ t1 t2, z = t1 ++ t2 → maps t2 true = none) → wildUp maps z = none
+  | [], h => h [] [] rfl
+  | x :: z, h => by
+    simp only [wildUp]; rw [h [] (x :: z) rfl]
+    exact wildUp_none z fun t1 t2 ht => h (x :: t1) t2 (by rw [ht]; rfl)
+
+theorem wild_none {maps : Maps} {q : List Bytes} (h : ∀ a, a <+: q → maps a.reverse true = none) :
+    wildUp maps q.reverse = none := by
+  apply wildUp_none
+  intro t1 t2 ht
+  have hq : q = t2.reverse ++ t1.reverse := by
+    have := congrArg List.reverse ht; simpa using this
+  have := h t2.reverse (by rw [hq]; exact List.prefix_append _ _)
+  rwa [List.reverse_reverse] at this
+
+theorem mapSpec_eq (maps : Maps) (ql : List Bytes) :
+    mapSpec maps ql = match maps ql false with
+      | some v => some v
+      | none => if ql = [] then none else wildUp maps ql.tail := by
+  unfold mapSpec
+  cases maps ql false with
+  | some v => rfl
+  | none => cases ql <;> simp
+
+section GoV2
+variable {s : Store} {mtype : Bytes} {maps : Maps}
+
+theorem go_stop {rev : Bytes} {cap f : Nat} {kBody : Bytes} {c : UInt8}
+    (h : s.seekForPrev (kBody ++ [c]) = none ∨ ∃ fk vals, s.seekForPrev (kBody ++ [c]) = some (fk, vals) ∧
+      fk ≠ kBody ++ [c] ∧ fk.take 2 ≠ mtype) :
+    Loc.findMapSorted.go s mtype rev cap (f + 1) kBody c = .ok none := by
+  rw [Loc.findMapSorted.go]
+  rcases h with h | ⟨fk, vals, h, hne, hpre⟩
+  · simp only [h]
+  · simp only [h]; rw [if_neg hne, if_pos (Or.inr hpre)]
+
+theorem go_hit {rev : Bytes} {cap f : Nat} {kBody : Bytes} {c : UInt8} {v : Bytes}
+    (h : s.seekForPrev (kBody ++ [c]) = some (kBody ++ [c], [v])) :
+    Loc.findMapSorted.go s mtype rev cap (f + 1) kBody c = .ok (some v) := by
+  rw [Loc.findMapSorted.go]
+  simp only [h]
+  rw [if_pos trivial]
+  have : Loc.rawValue [v] = le32 v.length ++ v := by simp [Loc.rawValue, appendValues]
+  rw [this, if_neg (by simp [le32_length])]
+  have : (le32 v.length ++ v).drop 4 = v := by
+    rw [List.drop_append_of_le_length (by simp [le32_length])]; simp [le32]
+  rw [this]
+
+theorem mapkey_parts (hmt : mtype.length = 2) (m : List Bytes) (c' : UInt8) :
+    ¬ ((K mtype m [c']).length < 2 ∨ (K mtype m [c']).take 2 ≠ mtype) ∧
+    ((K mtype m [c']).drop 2).take ((K mtype m [c']).length - 3) = pack m := by
+  have e : K mtype m [c'] = mtype ++ (pack m ++ [c']) := by simp [K]
+  refine ⟨?_, ?_⟩
+  · rw [e]
+    intro h
+    rcases h with h | h
+    · simp [hmt] at h; omega
+    · exact h (take_prefix_of_length hmt)
+  · rw [e, ← hmt, List.drop_left]
+    have : (mtype ++ (pack m ++ [c'])).length - 3 = (pack m).length := by simp [hmt]; omega
+    rw [this]; simp
+
+theorem go_next {rev : Bytes} {cap f : Nat} {kBody : Bytes} {c c' : UInt8} {m : List Bytes}
+    {vals : List Bytes} {length0 length : Nat} (hmt : mtype.length = 2)
+    (h : s.seekForPrev (kBody ++ [c]) = some (K mtype m [c'], vals))
+    (hne : K mtype m [c'] ≠ kBody ++ [c])
+    (hcp : Loc.commonPrefix rev (pack m) (rev.length + 1) 0 = some length0)
+    (hlen : (if length0 = rev.length then (Loc.lengthWithoutLastLabel rev length0 256 0 0).map (· - 1)
+      else some length0) = some length)
+    (h3 : ¬ (length = 0 ∧ kBody.length = 3)) (hcap : ¬ (2 + length + 2 > cap)) :
+    Loc.findMapSorted.go s mtype rev cap (f + 1) kBody c =
+      Loc.findMapSorted.go s mtype rev cap f (mtype ++ rev.take length ++ [0]) 0x2a := by
+  rw [Loc.findMapSorted.go]
+  simp only [h]
+  obtain ⟨h1, h2⟩ := mapkey_parts hmt m c'
+  rw [if_neg hne, if_neg h1, h2, hcp]
+  simp only []
+  rw [hlen]
+  simp only []
+  rw [if_neg h3, if_neg hcap]
+
+end GoV2
+
+section MainV2
+variable {s : Store} {mtype : Bytes} {maps : Maps}
+
+theorem sfx_true : sfx true = 0x2a := rfl
+theorem sfx_false : sfx false = 0x3d := rfl
+
+/-- a present wildcard key at a prefix `a` of both `q` and `n`, below `k = K q [c]`, when the seek at
+`k` found the key of `m`: then `a` is a prefix of `lcp n m` -/
+theorem cand_prefix (hn : NameOK n) {q a m : List Bytes} (hq : q <+: n) (hm : NameOK m) (ha : a <+: q)
+    {c : UInt8} {w' : Bool}
+    (hle : bytesLe (K mtype m [sfx w']) (K mtype q [c]) = true)
+    (hak : bytesLe (K mtype a [sfx true]) (K mtype q [c]) = true)
+    (hmax : ∀ a w, NameOK a → bytesLe (K mtype a [sfx w]) (K mtype q [c]) = true → maps a.reverse w ≠ none →
+        bytesLe (K mtype a [sfx w]) (K mtype m [sfx w']) = true)
+    (hpres : maps a.reverse true ≠ none) : a <+: lcp n m := by
+  have hqn : NameOK q := hn.prefix hq
+  have h1 := hmax a true (hqn.prefix ha) hak hpres
+  have h2 : a <+: m := key_sandwich mtype hqn hm ha h1 hle
+  exact prefix_lcp (ha.trans hq) h2
+
+theorem go_wild (hrep : RepMapsV2 s mtype maps) (hmt : mtype.length = 2) {n : List Bytes} (hn : NameOK n) :
+    ∀ (fuel : Nat) (p : List Bytes), p <+: n → p ≠ n → p.length < fuel →
+      Loc.findMapSorted.go s mtype (pack n) ((pack n).length + 3) fuel (mtype ++ pack p) 0x2a =
+        .ok (wildUp maps p.reverse) := by
+  intro fuel
+  induction fuel with
+  | zero => intro p _ _ h; simp at h
+  | succ f ih =>
+    intro p hp hpn hpf
+    have hpo : NameOK p := hn.prefix hp
+    have hk : mtype ++ pack p ++ [0x2a] = K mtype p [sfx true] := rfl
+    rcases map_seek_cases hrep hmt (mtype ++ pack p ++ [0x2a]) ⟨pack p ++ [0x2a], by simp⟩ with
+      ⟨hA, habs⟩ | ⟨vals, hB, hmem⟩ | ⟨m, w', vals, hm, hC, hne, hle, hmax⟩
+    · rw [go_stop hA]
+      rw [wild_none]
+      intro a ha
+      exact habs a true (hpo.prefix ha) (by rw [hk]; exact K_le_of_prefix mtype hpo ha fun _ => bytesLe_refl _)
+    · obtain ⟨z, w, v, hz, _, hv⟩ := hrep.keys _ hmem (by
+        show (mtype ++ pack p ++ [0x2a]).take 2 = mtype
+        rw [List.append_assoc]; exact take_prefix_of_length hmt)
+      simp only at hv
+      subst hv
+      rw [go_hit hB]
+      have h1 := hrep.get_rev hpo true
+      obtain ⟨vals', hs', hg'⟩ := seekForPrev_of_mem ⟨_, hmem, rfl⟩
+      rw [hB] at hs'
+      cases hs'
+      rw [← hk, hg'] at h1
+      cases hm : maps p.reverse true with
+      | none => rw [hm] at h1; simp at h1
+      | some v' =>
+        rw [hm] at h1; simp at h1; subst h1
+        rw [wildUp_hit hm]
+    · rw [hk] at hC hne hle hmax
+      -- `p` is not a prefix of `m`
+      have hpm : ¬ p <+: m := by
+        intro hpm
+        by_cases he : p = m
+        · subst he
+          rw [key_le_same_name] at hle
+          rcases sfx_cases w' with h | h
+          · rw [h] at hne; exact hne rfl
+          · rw [h] at hle; revert hle; decide
+        · have := K_lt_of_proper_prefix mtype hm hpm he [sfx true] [sfx w']
+          rw [bytesLe_iff.1 hle] at this; cases this
+      have hmn : n ≠ m := fun e => hpm (e ▸ hp)
+      have hp'p : lcp n m <+: p := by
+        rcases prefix_total (lcp_prefix_left n m) hp with h | h
+        · exact h
+        · exact absurd (h.trans (lcp_prefix_right n m)) hpm
+      have hp'ne : lcp n m ≠ p := fun e => hpm (e ▸ lcp_prefix_right n m)
+      have hp'n : lcp n m <+: n := lcp_prefix_left n m
+      obtain ⟨t, ht⟩ := hp'n
+      have hcp := commonPrefix_spec n m [] [] ((pack n).length + 1) hn hm rfl
+        (by have := length_le_flat_length n; rw [pack_length]; omega)
+      simp only [List.nil_append, List.length_nil, Nat.zero_add] at hcp
+      rw [if_neg hmn] at hcp
+      have hfl : (flat (lcp n m)).length ≤ (flat n).length := flat_length_le_of_prefix (lcp_prefix_left n m)
+      have hplen : 1 ≤ (flat p).length := by
+        have h1 := length_le_flat_length p
+        have h2 : (lcp n m).length < p.length := by
+          rcases Nat.lt_or_ge (lcp n m).length p.length with h | h
+          · exact h
+          · exact absurd (hp'p.eq_of_length (Nat.le_antisymm hp'p.length_le h)) hp'ne
+        omega
+      rw [go_next (rev := pack n) (cap := (pack n).length + 3) (f := f) (kBody := mtype ++ pack p)
+        (c := 0x2a) hmt hC hne hcp (length := (flat (lcp n m)).length)
+        (by rw [if_neg (by rw [pack_length]; omega)])
+        (by rw [List.length_append, hmt, pack_length]; omega)
+        (by rw [pack_length]; omega)]
+      have e1 : (pack n).take (flat (lcp n m)).length = flat (lcp n m) := by
+        conv => lhs; rw [← ht, pack_append]
+        simp
+      have e2 : mtype ++ flat (lcp n m) ++ [0] = mtype ++ pack (lcp n m) := by
+        rw [pack_eq, List.append_assoc]
+      rw [e1, e2]
+      have hlt : (lcp n m).length < f := by
+        have h2 : (lcp n m).length < p.length := by
+          rcases Nat.lt_or_ge (lcp n m).length p.length with h | h
+          · exact h
+          · exact absurd (hp'p.eq_of_length (Nat.le_antisymm hp'p.length_le h)) hp'ne
+        omega
+      rw [ih (lcp n m) (lcp_prefix_left n m) (fun e => hpn (prefix_antisymm' hp (e ▸ hp'p))) hlt]
+      rw [wild_skip hp'p]
+      intro a ha hpres
+      exact cand_prefix hn hp hm ha hle (K_le_of_prefix mtype hpo ha fun _ => bytesLe_refl _) hmax hpres
+
+end MainV2
+
 end DnsVerif.RevOrder
